@@ -322,7 +322,7 @@ def _grid_init(ctx, R, m, init):
                 ctx.ob(R, init.qname, f"{what}: the constructor calls _setup", False, "call of self._setup not found in the fold", init.node)
                 continue
             F = so.fields
-            ctx.ob(R, init.qname, f"{what}: dim = number of axes of the shape", F.get("dim") == d, f"dim = {nf(F.get('dim'))}", init.node, evidence=isinstance(F.get("dim"), int))
+            ctx.ob(R, init.qname, f"{what}: dim = number of axes of the shape", F.get("dim") == d, f"dim = {nf(F.get('dim'))}" if isinstance(F.get("dim"), int) else f"dim not found as a number: {nf(F.get('dim'))[:60]}", init.node, evidence=isinstance(F.get("dim"), int))
             want_h = hs if mode == "list" else [vs] * d
             got_h = F.get("voxel_size")
             got_l = got_h.flat() if isinstance(got_h, Arr) else (list(got_h) if isinstance(got_h, (list, tuple)) else None)
